@@ -53,6 +53,7 @@ type Clause struct {
 	Callee    string
 	Overrides string // label of the callee clause this call-site clause replaces
 	Cond      string // ghostset: condition
+	Assumed   bool   // "assume": a postcondition of a /repo function that is used at call sites but not verified
 	// Free: skip assumption of this ensures at call sites unless tag selected (unused)
 }
 
@@ -107,7 +108,7 @@ type PkgSpec struct {
 	Opaque    []string
 }
 
-var kwRe = regexp.MustCompile(`^(requires|ensures|returns|observe|ghostset|modifies|cover|loop|results|nopanic|inline|unroll|atcall|handler|intmode|reveal)\b`)
+var kwRe = regexp.MustCompile(`^(requires|ensures|assume|returns|observe|ghostset|modifies|cover|loop|results|nopanic|inline|unroll|atcall|handler|intmode|reveal)\b`)
 
 // readSpecLines extracts the //@ lines of a file ("\" continues a line).
 func readSpecLines(path string) ([]string, []int, error) {
@@ -240,11 +241,12 @@ func parseSpecFile(path string, ps *PkgSpec, trustedFile bool) error {
 			for _, c := range strings.Fields(parts[1]) {
 				ps.Guarded[c] = strings.TrimSpace(parts[0])
 			}
-		case strings.HasPrefix(t, "valinv ") || strings.HasPrefix(t, "typeinv "):
+		case strings.HasPrefix(t, "valinv ") || strings.HasPrefix(t, "typeinv ") || strings.HasPrefix(t, "heapinv "):
 			// valinv TYPE (v TYPE) :: EXPR #label @tags     invariant of map-held values (checked at stores)
 			// typeinv PKGPATH.TYPE (v T) :: EXPR            assumed invariant of a library type (trusted)
-			isType := strings.HasPrefix(t, "typeinv ")
-			rest := strings.TrimPrefix(strings.TrimPrefix(t, "valinv "), "typeinv ")
+			isType := strings.HasPrefix(t, "typeinv ") || strings.HasPrefix(t, "heapinv ")
+			isHeap := strings.HasPrefix(t, "heapinv ")
+			rest := strings.TrimPrefix(strings.TrimPrefix(strings.TrimPrefix(t, "valinv "), "typeinv "), "heapinv ")
 			sp := strings.Index(rest, " ")
 			tname := rest[:sp]
 			text, label, tags := splitLabelTags(" " + rest[sp+1:])
@@ -252,6 +254,10 @@ func parseSpecFile(path string, ps *PkgSpec, trustedFile bool) error {
 			key := "valinv:" + tname
 			if isType {
 				key = "typeinv:" + tname
+			}
+			if isHeap {
+				// heapinv PKG.TYPE (p *T) :: EXPR   invariant of every object of a library type, in every state (trusted)
+				key = "heapinv:" + tname
 			}
 			for _, x := range ps.Funcs {
 				if x.Key == key {
@@ -413,8 +419,8 @@ func parseSpecFile(path string, ps *PkgSpec, trustedFile bool) error {
 				cur.Clauses = append(cur.Clauses, &Clause{Kind: KAssertCall, Callee: strings.TrimSpace(rest[:idx]), Text: text, Label: label, Tags: tags, File: path, Line: ln, Overrides: overrides})
 			default:
 				text, label, tags := splitLabelTags(" " + rest)
-				kind := map[string]ClauseKind{"requires": KRequires, "ensures": KEnsures, "cover": KCover, "returns": KReturns}[kw]
-				cur.Clauses = append(cur.Clauses, &Clause{Kind: kind, Text: text, Label: label, Tags: tags, File: path, Line: ln})
+				kind := map[string]ClauseKind{"requires": KRequires, "ensures": KEnsures, "assume": KEnsures, "cover": KCover, "returns": KReturns}[kw]
+				cur.Clauses = append(cur.Clauses, &Clause{Kind: kind, Text: text, Label: label, Tags: tags, File: path, Line: ln, Assumed: kw == "assume"})
 			}
 		default:
 			return fmt.Errorf("%s:%d: cannot parse spec line: %q", path, ln, t)
@@ -808,7 +814,7 @@ func (ps *PkgSpec) generate(trustedDir string) error {
 	for _, fs := range ps.Funcs {
 		var recvDecl, paramDecl, resDecl string
 		var pnames, rnames []string
-		if strings.HasPrefix(fs.Key, "valinv:") || strings.HasPrefix(fs.Key, "typeinv:") {
+		if strings.HasPrefix(fs.Key, "valinv:") || strings.HasPrefix(fs.Key, "typeinv:") || strings.HasPrefix(fs.Key, "heapinv:") {
 			for _, c := range fs.Clauses {
 				n++
 				c.GoName = fmt.Sprintf("spec_%d_%s", n, c.Kind)
